@@ -420,7 +420,7 @@ impl<'p> Interp<'p> {
             root: Rc::new(RefCell::new(Node::default())),
             groot: Rc::new(RefCell::new(Node::default())),
             now: 0,
-            sr: 48000.0,
+            sr: crate::run::HOST_SAMPLE_RATE,
             fuel: 0,
         }
     }
